@@ -10,17 +10,19 @@ META = {
              "cap-bearing batches and of operations that only remove records from the filter, for every initial content within the cap), "
              "four_cell (budget decremented iff not-pre and post and budget > 0; exactly that cell is rejected at budget 0; the record is "
              "otherwise written with the patched value), refutes_current / witness_overshoots (closed witness for count-then-lock: two "
-             "batches, cap 1, both count 0, final count 2); classify_sound ties the decision to 6 facts from gateway_patch.go, "
-             "swamp_patch.go, swamp_patch_expired.go, beacon.go; the model is run against two real concurrent PatchTreasures RPCs "
-             "stopped at cap.pre / cap.mid / cap.patch."),
+             "batches, cap 1, both count 0, final count 2); refutes_createFromSeed and refutes_expiredEarlyUnlock (closed witnesses: pre-state of a create taken from the seed; PatchExpired releasing capMu after its select step); classify_sound ties the decision to 9 facts (AST shapes) from gateway_patch.go, "
+             "swamp_patch.go, swamp_patch_expired.go, beacon.go; the model is run against real concurrent PatchTreasures (incl. creates with a seed), PatchExpiredTreasures (stopped at pexp.selected, between select and patches) and ShiftMatchingTreasures RPCs carrying the cap."),
     "note": ("Trusted: Lean kernel; extract/c12.go; harness/c12.go + rig + app/verifhook + swamp.VerifCapMuFree; records are abstracted to "
              "one bit (matches Cap.Filter); CountMatching is one atomic read under the beacon lock; PatchFields on one key is atomic under "
-             "the record guard; PatchExpired (lock, then count+select) and ShiftMatching (removes only) are covered by the model's "
-             "lock-first batches and `shrink` action, tied by facts only (their RPCs are not driven by this correspondence)."),
+             "the record guard; ShiftMatching only removes records (model action `delete`): its capMu hold is tied by a fact but no theorem needs it (dropping it cannot raise the count)."),
     "design_ref": "§8 C12, Appendix E (cap batch)",
 }
 
 FINDINGS = {
+    "C12-create-counts-as-prematched": "PatchFields computes the pre-state of a create from the InitialMsgpackOnCreate seed: a create whose "
+                                       "seed matches Cap.Filter spends no budget and is never rejected",
+    "C12-patchexpired-releases-capmu-early": "PatchExpired releases capMu after its count+select step: a second cap-bearing call counts before "
+                                             "the selected records have been patched and spends the same budget again",
     "C12-count-before-capmu": "capPreCount counts the matching records before taking capMu: two concurrent cap-bearing PatchTreasures batches "
                               "both start from the same count and together push the number of matching records above Cap.MaxMatching",
 }
@@ -52,7 +54,7 @@ def run(ctx):
     K.lean_verdict(ctx)
     corrs = []
     if K.build_hx(ctx) and K.build_drv(ctx):
-        args = ["countAfterLock=" + facts.get("countAfterLock", "unknown")]
+        args = ["%s=%s" % (k, facts.get(k, "unknown")) for k in ("countAfterLock", "createPreFalse", "expiredHoldsCapMu")]
         c = K.correspondence(ctx, "C12", args)
         corrs.append(("C12", args, c))
     else:
